@@ -98,6 +98,78 @@ func backoffGrid(tier string, r *vx.Report) {
 	r.Sample(map[string]any{"part": "backoff", "min": "1s", "max": "5s", "jitter": 0.5, "attempt": 63, "draw": 0.95})
 }
 
+// backoffViaManager: the same two clauses judged on the back-off object that NewManager builds from a
+// ManagerConfig (unset fields take the documented defaults 1 s / 5 s / 0.5), including configurations whose
+// delay exceeds their maximum: the maximum is what the user asked never to exceed.
+func backoffViaManager(r *vx.Report) {
+	d := func(x time.Duration) *time.Duration { return &x }
+	type cfgT struct {
+		delay, max *time.Duration
+		name       string
+	}
+	cfgs := []cfgT{
+		{nil, nil, "defaults"},
+		{d(100 * time.Millisecond), d(100 * time.Millisecond), "delay=max"},
+		{d(3 * time.Second), d(20 * time.Millisecond), "delay 3s above max 20ms"},
+		{nil, d(200 * time.Millisecond), "only max set, below the default delay"},
+		{d(30 * time.Second), nil, "only delay set, above the default max"},
+		{d(time.Millisecond), d(time.Hour), "wide"},
+	}
+	jits := []*float32{nil}
+	for _, j := range []float32{0, 0.5, 1} {
+		j := j
+		jits = append(jits, &j)
+	}
+	n := 0
+	defer func() { vsched.EnvFloat64Script = nil }()
+	for _, c := range cfgs {
+		for _, j := range jits {
+			effDelay, effMax, effJ := time.Second, 5*time.Second, 0.5
+			if c.delay != nil {
+				effDelay = *c.delay
+			}
+			if c.max != nil {
+				effMax = *c.max
+			}
+			if j != nil {
+				effJ = float64(*j)
+			}
+			for _, a := range []uint32{0, 1, 2, 5, 10, 40, 70, 1024} {
+				for _, draw := range []float64{0, 0.3, 0.5, 0.7, math.Nextafter(1, 0)} {
+					draw := draw
+					vsched.EnvFloat64Script = func() float64 { return draw }
+					mgr := sio.NewManager("http://inproc/socket.io/", &sio.ManagerConfig{ReconnectionDelay: c.delay, ReconnectionDelayMax: c.max, RandomizationFactor: j})
+					b := mgr.VerifBackoff()
+					b.SetAttempts(a)
+					got := b.Duration()
+					n++
+					what := fmt.Sprintf("ManagerConfig %s (effective delay %v, max %v, jitter %v), attempt %d, draw %.2f", c.name, effDelay, effMax, effJ, a, draw)
+					rep := map[string]any{"part": "backoff-via-manager", "config": c.name, "attempt": a, "draw": draw}
+					if got <= 0 || got > effMax {
+						r.Violate("back-off built by NewManager: delay outside (0, ReconnectionDelayMax]", fmt.Sprintf("%s: delay %v", what, got), rep)
+					}
+					if a == 0 && effDelay <= effMax {
+						lo := time.Duration(float64(effDelay) * (1 - effJ))
+						hi := time.Duration(float64(effDelay)*(1+effJ)) + 1
+						if hi > effMax {
+							hi = effMax
+						}
+						if lo <= 0 {
+							lo = 1
+						}
+						if (got < lo || got > hi) && !(float64(effDelay)*(1-effJ) <= 0 && got == effMax) {
+							r.Violate("back-off built by NewManager: first delay does not start from ReconnectionDelay", fmt.Sprintf("%s: delay %v, expected within [%v, %v]", what, got, lo, hi), rep)
+						}
+					}
+				}
+			}
+		}
+	}
+	r.Evaluations += n
+	r.DistinctNontriv += n
+	r.Extra["backoff_via_manager_points"] = n
+}
+
 // ---------------------------------------------------------------- 2. reconnect machine
 
 type evLog struct {
@@ -817,7 +889,7 @@ func main() {
 	vx.Main(vx.Config{
 		Property: "C15",
 		Level:    "model_checking",
-		Rule: "back-off: full grid of (ReconnectionDelay, ReconnectionDelayMax, jitter, attempt number incl. overflowing ones, random draw) with the random draw scripted; reconnect machine: outage of j = 0..5 failed dials x attempt limit 0..5 x {refused at once, dial times out after 20 s}, each executed on the real Manager/Server pair in virtual time and judged on the timestamped reconnect_* events; " +
+		Rule: "back-off: full grid of (ReconnectionDelay, ReconnectionDelayMax, jitter, attempt number incl. overflowing ones, random draw) with the random draw scripted, and the back-off objects NewManager builds from 6 configurations x 4 jitters (unset fields = defaults; delay above max); reconnect machine: outage of j = 0..5 failed dials x attempt limit 0..5 x {refused at once, dial times out after 20 s}, each executed on the real Manager/Server pair in virtual time and judged on the timestamped reconnect_* events; " +
 			"offline traffic: all 24 orders of {plain, volatile, ack, ack+timeout} (plus volatile chained with a timeout in either order) emitted while disconnected plus before/during/after placements, an emitter on another goroutine racing the completion of the reconnection, Disconnect() directly followed by Connect(), and two sockets of one Manager emitting while disconnected, explored to the deviation bound. distinct_nontrivial = grid points with attempt > 0 and jitter in (0,1] + outage cases + deviating schedules",
 		Scenarios: scenarios,
 		Budget: func(tier string) time.Duration {
@@ -828,6 +900,7 @@ func main() {
 		},
 		Extra: func(tier string, r *vx.Report) {
 			backoffGrid(tier, r)
+			backoffViaManager(r)
 			n := 0
 			for j := 0; j <= 5; j++ {
 				for limit := uint32(0); limit <= 5; limit++ {
